@@ -689,7 +689,9 @@ func (g *c14Gen) selectCmd() []B {
 
 func (g *c14Gen) cmd() []B {
 	r := g.r
-	if g.dbs > 1 && r.Bool(0.18) {
+	if (g.dbs > 1 && r.Bool(0.18)) || (g.dbs == 1 && r.Bool(0.04)) {
+		// (with the single database of a shipped cluster configuration every index
+		// but 0 must be refused, exactly as by a standalone server with one database)
 		return g.selectCmd()
 	}
 	if g.feats["filtered"] && (g.pendingPub != "" || r.Bool(0.2)) {
